@@ -25,7 +25,7 @@ from common.ctx import stable_hash
 from engines import io_engine_texts as T
 from engines.io_engine import load_corpus
 
-ATTEMPT_TIMEOUT = 30.0
+ATTEMPT_TIMEOUT = 20.0
 POLICIES = ["DEFAULT", "EDIF"]
 
 SIG_POLICY = {"edif": "edif.parse.policy_not_restored_on_error",
@@ -333,7 +333,7 @@ def run_attempt(inp, tmpdir, good, fresh_by_policy, timeout=ATTEMPT_TIMEOUT):
     fresh = fresh_by_policy.get(inp["policy0"]) if inp.get("probe", True) else None  # None: probe unavailable
     st, val = forked(lambda: attempt_body(fmt, path, inp["policy0"], good, fresh), timeout)
     if st == "hang":
-        st, val = forked(lambda: attempt_body(fmt, path, inp["policy0"], good, fresh), timeout * 3)
+        st, val = forked(lambda: attempt_body(fmt, path, inp["policy0"], good, fresh), timeout * 2)
         if st == "hang":
             return {"outcome": "hang"}
     if st == "died":
@@ -361,7 +361,9 @@ def judge_attempt(sr, inp, res):
         sr["obligations"].append(("attempt child ran without internal error", False, str(res.get("info"))[-800:]))
         return
     if out == "hang":
-        sr.spec_failure("%s.parse.hang" % fmt, brief, "no result within %ds (twice)" % int(ATTEMPT_TIMEOUT * 3))
+        sr.spec_failure("%s.parse.hang" % fmt, brief,
+                        "the input neither fails nor is accepted: no return within %d s, and again none within %d s (the unchanged readers answer in milliseconds)"
+                        % (int(ATTEMPT_TIMEOUT), int(ATTEMPT_TIMEOUT * 2)))
         return
     if out == "ok":
         if res.get("wf_bb"):
@@ -552,8 +554,8 @@ def make_attempts(rec, rng, sample, probe_frac, n_replace):
     for c in cs:
         text = T.apply(rec, c)
         if c.get("must"):
-            # never sampled away, both initial policies, always with the fresh-process probe
-            for p in POLICIES:
+            # never sampled away, both initial policies (one for the lexical stress), always with the fresh-process probe
+            for p in ([policy_for(rec["fmt"], rng)] if c.get("one_policy") else POLICIES):
                 out.append({"kind": "attempt", "fmt": rec["fmt"], "origin": rec["origin"], "text": text,
                             "corruption": c, "policy0": p, "probe": True})
         else:
@@ -627,12 +629,18 @@ def shard_worker(jobs, deadline, shard_id):
             # JSON round trip so that the comparison in the child sees the same types
             fresh[p] = json.loads(json.dumps(val))
         drv = lean.Driver("drv_io")
+        hangs = 0
         for inp in jobs:
             if time.time() > deadline:
                 sr.dist("budget.cut")
                 continue
             if inp["kind"] == "attempt":
+                if hangs >= 2 and inp.get("corruption", {}).get("kind") == "longid":
+                    sr.dist("skipped.longid_after_two_hangs")   # each hang costs a minute; two replays are enough
+                    continue
                 res = run_attempt(inp, tmpdir, good, fresh)
+                if res.get("outcome") == "hang":
+                    hangs += 1
                 judge_attempt(sr, inp, res)
                 c = inp.get("corruption", {"kind": "none"})
                 sr.case(stable_hash([inp["fmt"], inp["text"], inp["policy0"]]), nontrivial=len(inp["text"]) > 200)
@@ -727,7 +735,7 @@ def run(ctx):
                 "distinct = distinct (format,text,policy) / distinct model-level histories; non-trivial = text > 200 chars / >= 2 parses")
     ctx.assumptions += [
         "parse bodies are abstract in the model: the theorems hold for every body (any failure point); that the real bodies do not assign the policy themselves (needed for EBLIF, which does not switch) is observed by the trajectory correspondence, not proved",
-        "'never hangs' is observed with a per-input wall-clock limit (%ds, retried once with 3x) on CPython; the model is total by construction" % int(ATTEMPT_TIMEOUT),
+        "'never hangs' is observed with a per-input wall-clock limit (%ds, retried once with 2x) on CPython; the model is total by construction" % int(ATTEMPT_TIMEOUT),
         "process-wide residue other than the policy is searched for by a fixed probe script compared with a fresh-process transcript; it is not enumerated from the source",
     ]
     ctx.partial_notes += ["partial: termination of the real interpreter is observed (timeout), not proved"]
@@ -739,7 +747,12 @@ def run(ctx):
             if j.get("origin") == "pinned" or c.get("kind") in ("edge", "none"):
                 return 0
             if c.get("must"):
-                return 1
+                # the cheap deterministic detectors first: lexical states, long identifiers, text edges
+                if c.get("kind") in ("lexstate", "longid", "retarget", "rescope"):
+                    return 1
+                if c.get("kind") == "truncate" and c.get("one_policy"):
+                    return 1.1   # a failure at every point of the fixed texts: the general residue detector
+                return 1.2 if not c.get("one_policy") else 1.5
             if j.get("kind") == "history":
                 return 2
             return 3
